@@ -5,8 +5,9 @@ class C08(TieCheck):
     pid = "C08"
     area = "Route"
     coq_targets = ["Corr.vo"]
-    extra_props = [("Dispatch", "Props_C08_dispatch.v"), ("Compose", "Props_Compose.v")]
+    extra_props = [("Dispatch", "Props_C08_dispatch.v"), ("Compose", "Props_Compose.v"), ("Compose", "Props_Compose2.v")]
     props = ["Props_C08.v", "Props_C08_tsr.v", "Props_C09_e2e.v"]
+    gentie = "C08"
     harness = "c01"
     extra_trust = ["model M1: coq/Route/Lookup.v (tsr detection sites and propagation); specification: Spec.spec_lookup = direct(host) > tsr(host) > direct(path) > tsr(path) on the slash-toggled path",
                    "dispatch/redirect half of C08 is checked in coq/Dispatch (see C11)"]
